@@ -380,6 +380,8 @@ def valid_utf8_everywhere(x):
 
 # ---------------------------------------------------------------- generators
 SPECIALS = ['#', '$', '%23', '%24', '%', '+', '++', ' ', '  ', '|', '{', '}', '{0}', '{x}', '{}', '%s', '%(a)s', '\\',
+            'P', 'S', 'I', 'M', 'B', 'D', 'E', 'V', 'Y', 'EC', 'KEEPALIVE', 'KEEPALIVE_STATS', 'CLOSE', 'MPI', 'DPI', 'SUB', 'RAC', 'UD3', 'EOS', 'FAL',
+            'STOP_WAITING_PILL', 'KEEPALIVE_PILL', 'ARI.version', 'keepalive_hint.millis', 'reason', 'true', 'False', '0', '1', '-1', '1e+16', 'nan', 'inf',
             'AAPL.O\n', '12.5\n', 'x\r', '\nabc', 'abc\r\n', 'a\tb', '\x0b', 'a\x1cb', 'line1\nline2', 'a|b', 'k=v|w=5', '~', '*', "'quoted'", '"dq"',
             'gr\u00f6\u00dfe', '\u4ef7\u683c', '\u0446\u0435\u043d\u0430', 'm\u00b2', '\u0663', '\u00e9', 'A', 'z9', '0', 'None', 'null']
 RESERVED = ['|', '#', '$', '%', '+', '*', '~', ' ', '\r', '\n', '\x00', 'é', '€', '😀',
@@ -400,7 +402,7 @@ class Gen:
         x = r.random()
         if allow_none and x < 0.08:
             return None
-        if x > 0.93:
+        if x > 0.90:
             return r.choice(SPECIALS)
         if x < 0.14:
             return ''
